@@ -58,6 +58,8 @@ type vfUserFacts struct {
 	BootstrapExp time.Time
 	BootstrapUsed bool
 	lastAccepted  string
+	PendingSecret string
+	RegChallenge  string
 }
 
 type vfModel struct {
